@@ -190,6 +190,27 @@ func (c *Ctx) handSquare() ([][]byte, string) {
 }
 
 func streamMalformed(c *Ctx) {
+	// the empty inputs: a nil and a zero-length share list through every decoder (incl. Deconstruct / IsEmpty)
+	c.malformedOps(nil, "nil-list")
+	c.malformedOps([][]byte{}, "empty-list")
+	// a sequence start, then padding of each kind, then a continuation share before any new start
+	{
+		ns := c.userNamespaces(1)[0]
+		spec := c.randBlob(ns, 1200, false)
+		b, _ := spec.blob()
+		sh, _ := b.ToShares()
+		raw := sharesToBytes(sh)
+		pads := [][]byte{sharesToBytes(share.TailPaddingShares(1))[0], sharesToBytes(share.ReservedPaddingShares(1))[0]}
+		if np, err := share.NamespacePaddingShare(ns, 0); err == nil {
+			pads = append(pads, np.ToBytes())
+		}
+		for _, pad := range pads {
+			c.malformedOps([][]byte{raw[0], pad, raw[1]}, "start+padding+continuation")
+			c.malformedOps([][]byte{raw[0], pad, pad, raw[1], raw[2]}, "start+padding+continuation")
+			c.malformedOps([][]byte{pad, raw[1]}, "padding+continuation")
+			c.malformedOps([][]byte{raw[0], raw[1], pad, raw[2]}, "start+padding+continuation")
+		}
+	}
 	nc := c.n(1500, 60000)
 	for i := 0; i < nc; i++ {
 		switch c.rng.Intn(5) {
